@@ -21,7 +21,7 @@ UNIVERSAL_SHAPES = ('Necessity:', 'Possibility:neg', 'Universal:', 'Existential:
 
 
 def record_cases(rep, tag, per_logic, orders, extra_jobs=()):
-    jobs = P.corpus_jobs(rep.seed, per_logic, tag, 'final', orders=orders, models=1, max_steps=200, systematic=(tag == 'c02'))
+    jobs = P.corpus_jobs(rep.seed, per_logic, tag, 'final', orders=orders, models=1, max_steps=200, systematic=(tag == 'c02'), default_too=True)
     jobs += list(extra_jobs)
     outs = P.run_jobs(jobs, tag)
     cases = []
